@@ -85,6 +85,26 @@ impl<'a> Gen<'a> {
     pub fn op(&mut self, m: &Model, gs: &GuardState) -> FsOp {
         if self.guarded {
             if let Some((d, _)) = gs.must_sync.iter().next() {
+                // mostly flush at once; sometimes look at the tree first or rename the file on
+                if self.rng.chance(1, 4) {
+                    for _ in 0..10 {
+                        if let Some(op) = self.try_op(m) {
+                            if matches!(op, FsOp::ReadWhole { .. } | FsOp::Metadata { .. } | FsOp::Exists { .. } | FsOp::ReadDir { .. } | FsOp::Rename { .. }) && guard_violation(m, gs, &op).is_none() {
+                                let mut probe = m.clone();
+                                if exec_model(&mut probe, &op) != Obs::Unjudged {
+                                    return op;
+                                }
+                            }
+                        }
+                    }
+                    if let Some(from) = gs.renamed_to.clone() {
+                        let to = self.creatable(m);
+                        let op = FsOp::Rename { from, to, front: self.front() };
+                        if guard_violation(m, gs, &op).is_none() {
+                            return op;
+                        }
+                    }
+                }
                 return FsOp::SyncDir { path: d.clone(), front: self.front() };
             }
         }
@@ -218,6 +238,8 @@ pub struct GuardState {
     /// torn writes replay every pending write of a path, so with a block size configured (C07) even a
     /// truncating re-creation does not hide the removed file's unsynced writes
     pub strict_remove: bool,
+    /// destination of the rename that is still unsynced (a quiescent file may be renamed on in a chain)
+    pub renamed_to: Option<String>,
 }
 
 pub const KF_HANDLE: &str = "open-handle-across-rename-or-unlink";
@@ -260,6 +282,10 @@ pub fn guard_violation(m: &Model, gs: &GuardState, op: &FsOp) -> Option<&'static
         return match op {
             FsOp::SyncDir { path, .. } if gs.must_sync.contains_key(path) => None,
             FsOp::Advance { .. } => None,
+            // looking at the tree is fine while a rename / remove is unsynced
+            FsOp::ReadWhole { .. } | FsOp::Metadata { .. } | FsOp::Exists { .. } | FsOp::ReadDir { .. } => None,
+            // so is renaming the same (quiescent, handle-free) file on to a fresh name: a chain a -> b -> c
+            FsOp::Rename { from, to, .. } if gs.renamed_to.as_deref() == Some(from.as_str()) && m.is_file(from) && !m.exists(to) && from != to && !m.stale_paths.contains(to) => None,
             _ => Some(why),
         };
     }
@@ -341,10 +367,14 @@ pub fn guard_step(gs: &mut GuardState, op: &FsOp, mo: &Obs) {
     match op {
         FsOp::SyncDir { path, .. } => {
             gs.must_sync.remove(path);
+            if gs.must_sync.is_empty() {
+                gs.renamed_to = None;
+            }
         }
         FsOp::Rename { from, to, .. } if *mo == Obs::Unit && from != to => {
             gs.must_sync.insert(parent_of(from), KF_RENAME);
             gs.must_sync.insert(parent_of(to), KF_RENAME);
+            gs.renamed_to = Some(to.clone());
         }
         FsOp::RemoveFile { path, .. } | FsOp::RemoveDir { path, .. } | FsOp::RemoveDirAll { path, .. } if *mo == Obs::Unit => {
             gs.must_sync.insert(parent_of(path), KF_REMOVE);
